@@ -98,7 +98,7 @@ def nodes_cases(draw):
     case = dict(region=region, kind=kind)
     if kind == "scatter":
         case.update(size=draw(st.integers(1, 200)), seed=draw(st.integers(0, 2**31 - 1)),
-                    extra=draw(st.one_of(st.none(), gen.finite(-100, 100), st.lists(gen.finite(-100, 100), min_size=1, max_size=3))))
+                    extra=draw(st.one_of(st.none(), gen.finite(-100, 100), st.just(0.0), st.lists(st.one_of(gen.finite(-100, 100), st.just(0.0)), min_size=1, max_size=3))))
     elif kind == "grid_shape":
         case.update(shape=[draw(st.integers(1, 60)), draw(st.integers(1, 60))], pixel=draw(st.booleans()))
     else:
@@ -265,11 +265,17 @@ def maxabs_cases(draw):
     shapes = []
     for a in arrays:
         shapes.append([2, len(a) // 2] if len(a) % 2 == 0 and draw(st.booleans()) else [len(a)])
-    return dict(arrays=arrays, shapes=shapes, nan=draw(st.booleans()), as_list=draw(st.booleans()))
+    dtypes = []
+    for a in arrays:
+        integral = all((not math.isnan(v)) and float(v).is_integer() for v in a)
+        nonneg = integral and all(v >= 0 for v in a)
+        opts = ["float64"] + (["int64", "int32", "float32"] if integral else []) + (["uint8" if max(a) < 256 else "uint32", "uint64"] if nonneg else [])
+        dtypes.append(draw(st.sampled_from(opts)))
+    return dict(arrays=arrays, shapes=shapes, nan=draw(st.booleans()), as_list=draw(st.booleans()), dtypes=dtypes)
 
 
 def check_maxabs(case, ctx):
-    arrs = [np.array(a, dtype="float64").reshape(s) for a, s in zip(case["arrays"], case["shapes"])]
+    arrs = [np.array(a, dtype=dt).reshape(s) for a, s, dt in zip(case["arrays"], case["shapes"], case.get("dtypes") or ["float64"] * len(case["arrays"]))]
     flat = [v for a in case["arrays"] for v in a]
     has_nan = any(math.isnan(v) for v in flat)
     finite_vals = [abs(v) for v in flat if not math.isnan(v)]
